@@ -13,6 +13,8 @@ import (
 )
 
 type fnInfo struct {
+	harness bool // harness / prelude code (overlay files zz_verif_*)
+	own     bool // pogreb root package, non-harness
 	idx     map[ssa.Value]int
 	n       int
 	headers map[int]bool // loop-header block indices
@@ -44,6 +46,18 @@ func infoOf(fn *ssa.Function) *fnInfo {
 			if succ.Dominates(b) {
 				fi.headers[succ.Index] = true
 			}
+		}
+	}
+	if fn.Pkg != nil || fn.Parent() != nil {
+		top := fn
+		for top.Parent() != nil {
+			top = top.Parent()
+		}
+		pos := prog.Fset.Position(top.Pos())
+		base := shortFile(pos.Filename)
+		fi.harness = strings.HasPrefix(base, "zz_verif_")
+		if top.Pkg != nil && top.Pkg.Pkg.Path() == "github.com/akrylysov/pogreb" && !fi.harness {
+			fi.own = true
 		}
 	}
 	fnInfos[fn] = fi
@@ -243,6 +257,7 @@ func (s *State) exec(th *Thread, fr *Frame, in ssa.Instruction) {
 	case *ssa.Alloc:
 		t := x.Type().(*types.Pointer).Elem()
 		id := s.allocType(t, x.Comment)
+		s.heap[id].Own = fr.info.own
 		s.countAlloc(int64(layoutOf(t).n)*8, nil)
 		s.set(fr, x, PtrV{Obj: id})
 		s.next(fr)
@@ -264,6 +279,7 @@ func (s *State) exec(th *Thread, fr *Frame, in ssa.Instruction) {
 			if !s.nilCheck(p, "load") {
 				return
 			}
+			s.monitor(fr, p.Obj, p.Off, layoutOf(x.Type()).n, false)
 			s.set(fr, x, s.load(p, x.Type()))
 		case token.NOT:
 			s.set(fr, x, Not(s.asExpr(a)))
@@ -393,6 +409,7 @@ func (s *State) exec(th *Thread, fr *Frame, in ssa.Instruction) {
 		if !cp.IsConst() {
 			// symbolic capacity: virtual backing object, no enumeration of sizes
 			id := s.newObject(nil, "makeslice(sym)")
+			s.heap[id].Own = fr.info.own
 			s.heap[id].Elem = et
 			s.heap[id].Virtual = true
 			stats.stubs["makeslice:symbolic-length"]++
@@ -410,6 +427,7 @@ func (s *State) exec(th *Thread, fr *Frame, in ssa.Instruction) {
 			cells = append(cells, zl...)
 		}
 		id := s.newObject(cells, "makeslice")
+		s.heap[id].Own = fr.info.own
 		s.heap[id].Elem = et
 		s.set(fr, x, SliceV{Obj: id, Off: 0, Len: ln, Cap: Const(64, uint64(c))})
 		s.next(fr)
@@ -495,6 +513,7 @@ func (s *State) exec(th *Thread, fr *Frame, in ssa.Instruction) {
 		if !s.nilCheck(p, "store") {
 			return
 		}
+		s.monitor(fr, p.Obj, p.Off, layoutOf(x.Val.Type()).n, true)
 		s.store(p, s.get(fr, x.Val))
 		s.next(fr)
 
@@ -1207,6 +1226,10 @@ func (s *State) finishInline(th *Thread, fr *Frame, call *ssa.Call, res Value, r
 
 func (s *State) doReturn(th *Thread, ret Value) {
 	fr := th.top()
+	if fr.ret == retThread && fr.post == nil && len(th.frames) == 1 {
+		s.threadExit(th)
+		return
+	}
 	th.frames = th.frames[:len(th.frames)-1]
 	if fr.post != nil {
 		ret = fr.post(s, ret)
